@@ -217,10 +217,24 @@ def m_kron(orig):
     return kron
 
 
+def m_vstack(orig):
+    def vstack(blocks, format=None, dtype=None):
+        blocks = list(blocks)
+        if not any(isinstance(b, SymMat) for b in blocks):
+            return orig(blocks, format=format, dtype=dtype)
+        from .arrays import _m_bmat
+
+        _used("sps.vstack(blocks) = sps.bmat([[b] for b in blocks])")
+        return _m_bmat([[b] for b in blocks], format=format)
+
+    return vstack
+
+
 @contextlib.contextmanager
 def index_shims():
-    saved = [(np, "r_", np.r_), (sps, "coo_matrix", sps.coo_matrix), (sps, "kron", sps.kron), (np, "ones", np.ones),
+    saved = [(np, "r_", np.r_), (sps, "coo_matrix", sps.coo_matrix), (sps, "kron", sps.kron), (np, "ones", np.ones), (sps, "vstack", sps.vstack),
              (IndexSet, "size", IndexSet.__dict__.get("size"))]
+    sps.vstack = m_vstack(sps.vstack)
     np.r_ = _R(np.r_)
     coo = m_coo_matrix(sps.coo_matrix)
     sps.coo_matrix = coo
